@@ -75,3 +75,57 @@ Proof.
 Qed.
 
 End GI.
+
+(* ---- what last_index means: the last row of T holding the key ---- *)
+Lemma nthZ_cons_pos' (x:Z) t i : 0 < i -> nthZ (x :: t) i = nthZ t (i - 1).
+Proof.
+  intros H. unfold nthZ. replace i with ((i - 1) + 1) at 1 by lia. apply nthd_cons_succ. lia.
+Qed.
+
+Lemma last_index_from_spec key : forall T i0 acc,
+  match last_index_from key T i0 acc with
+  | Some i => (i0 <= i < i0 + len T /\ nthZ T (i - i0) = key /\
+               forall i', i < i' < i0 + len T -> nthZ T (i' - i0) <> key) \/
+              (acc = Some i /\ forall i', i0 <= i' < i0 + len T -> nthZ T (i' - i0) <> key)
+  | None => acc = None /\ forall i', i0 <= i' < i0 + len T -> nthZ T (i' - i0) <> key
+  end.
+Proof.
+  induction T as [|x t IH]; intros i0 acc; cbn [last_index_from].
+  - rewrite len_nil. destruct acc as [a|]; [right|]; split; try reflexivity; intros; lia.
+  - rewrite len_cons. pose proof (len_nonneg t) as Ht.
+    specialize (IH (i0 + 1) (if x =? key then Some i0 else acc)).
+    destruct (last_index_from key t (i0 + 1) (if x =? key then Some i0 else acc)) as [i|].
+    + destruct IH as [(H1 & H2 & H3)|(H1 & H2)].
+      * left. split; [lia|]. split.
+        -- rewrite nthZ_cons_pos' by lia. replace (i - i0 - 1) with (i - (i0 + 1)) by lia. exact H2.
+        -- intros i' Hi'. rewrite nthZ_cons_pos' by lia. replace (i' - i0 - 1) with (i' - (i0 + 1)) by lia.
+           apply H3. lia.
+      * assert (Hrest : forall i', i0 + 1 <= i' < i0 + (len t + 1) -> nthZ (x :: t) (i' - i0) <> key).
+        { intros i' Hi'. rewrite nthZ_cons_pos' by lia. replace (i' - i0 - 1) with (i' - (i0 + 1)) by lia.
+          apply H2. lia. }
+        destruct (x =? key) eqn:E.
+        -- injection H1 as <-. left. split; [lia|]. split.
+           ++ rewrite Z.sub_diag. unfold nthZ, nthd. cbn. lia.
+           ++ intros i' Hi'. apply Hrest. lia.
+        -- right. split; [exact H1|]. intros i' Hi'. destruct (Z.eq_dec i' i0) as [->|Hne].
+           ++ rewrite Z.sub_diag. unfold nthZ, nthd. cbn. lia.
+           ++ apply Hrest. lia.
+    + destruct IH as (H1 & H2). destruct (x =? key) eqn:E; [discriminate|].
+      split; [exact H1|]. intros i' Hi'. destruct (Z.eq_dec i' i0) as [->|Hne].
+      * rewrite Z.sub_diag. unfold nthZ, nthd. cbn. lia.
+      * rewrite nthZ_cons_pos' by lia. replace (i' - i0 - 1) with (i' - (i0 + 1)) by lia. apply H2. lia.
+Qed.
+
+Theorem last_index_meaning key T :
+  match last_index key T with
+  | Some i => 0 <= i < len T /\ nthZ T i = key /\ forall i', i < i' < len T -> nthZ T i' <> key
+  | None => forall i', 0 <= i' < len T -> nthZ T i' <> key
+  end.
+Proof.
+  unfold last_index. pose proof (last_index_from_spec key T 0 None) as H.
+  destruct (last_index_from key T 0 None) as [i|].
+  - destruct H as [(H1 & H2 & H3)|(H1 & _)]; [|discriminate].
+    rewrite Z.sub_0_r in H2. split; [lia|]. split; [exact H2|].
+    intros i' Hi'. specialize (H3 i' ltac:(lia)). rewrite Z.sub_0_r in H3. exact H3.
+  - destruct H as (_ & H). intros i' Hi'. specialize (H i' ltac:(lia)). rewrite Z.sub_0_r in H. exact H.
+Qed.
